@@ -13,6 +13,9 @@ From LV Require Import Proofs.SplitListOrdArith Proofs.SplitListLinProj Proofs.S
 Import ListNotations.
 Local Open Scope Z_scope.
 
+(* never unfold the 64-step bit reversal during conversion *)
+Local Opaque SL.rev64 SL.regular_hash.
+
 (** the client history: insert k -> SInsert k, erase k -> SErase k, any other code -> SContains k; responses with their result *)
 Definition kstep_h (out : hist) (te : nat * ev) : hist :=
   match te with
@@ -50,7 +53,7 @@ Proof.
   induction tr as [|[t e] tr IH]; intros out; cbn [fold_left]; [reflexivity|].
   rewrite <- IH. f_equal. destruct e as [kd o b|name args]; cbn [sstep_h kstep_h]; [reflexivity|].
   destruct (String.eqb name "inv").
-  - destruct args as [|c [|k [|x r]]]; try reflexivity. rewrite map_app. cbn [map ren_h]. rewrite ren_spec_op. reflexivity.
+  - destruct args as [|c [|k [|x r]]]; try reflexivity. rewrite map_app. cbn [map ren_h]. rewrite ren_spec_op. unfold fkey. reflexivity.
   - destruct (String.eqb name "ret"); [|reflexivity].
     destruct args as [|a [|b [|x r]]]; try reflexivity. rewrite map_app. reflexivity.
 Qed.
